@@ -482,6 +482,8 @@ class Ctx:
         # interval simplification uses a global table of variable ranges: one live context at a time
         T.VAR_BOUNDS.clear()
         T._bcache.clear()
+        if len(T._INTERN) > 2000000:
+            T._INTERN.clear()
         Ctx.LIVE = self
         self.prog = prog
         self.decls = {}          # var name -> sort
@@ -600,6 +602,28 @@ class Exec:
             if c == cond:
                 return True
             if c == T.not_(cond):
+                return False
+        if getattr(self.ctx, "prune_with_solver", False):
+            # optional: ask the solver whether both sides are feasible under the path condition (memoised per (pc, cond), so the
+            # re-execution of a path prefix takes the same decisions); an undecided query counts as feasible
+            key = (tuple(self.pc), cond)
+            memo = self.ctx.__dict__.setdefault("_prune_memo", {})
+            r = memo.get(key)
+            if r is None:
+                from . import smt as _smt
+                def feas(c):
+                    q = _smt.check("prune", self.ctx.decls, self.ctx.uf_decls, list(self.ctx.side) + list(self.pc) + [c], 5, want_model_of=(), solvers=("z3new",))
+                    self.ctx.__dict__["_prune_queries"] = self.ctx.__dict__.get("_prune_queries", 0) + 1
+                    return q.verdict != "unsat"
+                ft = feas(cond)
+                ff = feas(T.not_(cond)) if ft else True
+                r = "both" if (ft and ff) else ("true" if ft else "false")
+                memo[key] = r
+            if r == "true":
+                self.pc.append(cond)
+                return True
+            if r == "false":
+                self.pc.append(T.not_(cond))
                 return False
         i = len(self.choices)
         if i < len(self.prefix):
@@ -1391,6 +1415,14 @@ class Exec:
             if negate:
                 c = T.not_(c)
             if self.decide(c):
+                # overflow check passed: the tuple `(wrapped value, flag)` of the checked operation now holds the exact value
+                mo = re.match(r"^(?:move |copy )?\((_\d+)\.1: bool\)$", cond) if negate else None
+                if mo and mo.group(1) in fr.locals:
+                    tup = fr.locals[mo.group(1)]
+                    if isinstance(tup, AggV) and len(tup.fields) == 2 and isinstance(tup.fields[0], IntV) and isinstance(tup.fields[1], BoolV):
+                        vt = tup.fields[0].t
+                        if isinstance(vt, tuple) and vt[0] == "ite" and T.not_(vt[2]) == tup.fields[1].t:
+                            fr.locals[mo.group(1)] = AggV((IntV(vt[3], tup.fields[0].ty), BoolV(False)), tup.ty)
                 m = re.search(r"success: (bb\d+)", t[k:])
                 return m.group(1)
             raise Panic("assert: " + (parts[1].strip() if len(parts) > 1 else ""))
